@@ -137,6 +137,38 @@ def make_storage(ty, env):
     return Cell(ty)
 
 
+class StaticVars:
+    """Variables of one activation of a SUB / FUNCTION ... STATIC: the
+    parameters (and the function's result) belong to the activation, every
+    other local is shared by all activations and survives them."""
+
+    def __init__(self, own, keep):
+        self.own = own
+        self.keep = keep
+
+    def __contains__(self, n):
+        return n in self.own or n in self.keep
+
+    def __getitem__(self, n):
+        return self.own[n] if n in self.own else self.keep[n]
+
+    def get(self, n, d=None):
+        if n in self.own:
+            return self.own[n]
+        return self.keep.get(n, d)
+
+    def __setitem__(self, n, v):
+        if n in self.own:
+            self.own[n] = v
+        else:
+            self.keep[n] = v
+
+    def items(self):
+        d = dict(self.keep)
+        d.update(self.own)
+        return d.items()
+
+
 class Scope:
     def __init__(self, kind, name):
         self.kind = kind
@@ -207,6 +239,7 @@ class Interp:
         self.last_kind = None
         self.part = None           # sub-line part of a block statement being evaluated
         self.resumed = False
+        self.header_errors = 0
         self._collect()
 
     # -- preparation ------------------------------------------------------------
@@ -596,10 +629,11 @@ class Interp:
             # SUB/FUNCTION ... STATIC: every local keeps its value between
             # calls (parameters are bound afresh)
             keep = self.statics.setdefault(proc['name'] + ' (all locals)', {})
-            for pn, c in new.vars.items():
-                keep[pn] = c
-            new.vars = keep
-        if proc['kind'] == 'function':
+            own = dict(new.vars)
+            if proc['kind'] == 'function':
+                own[proc['name']] = Cell(name_type(proc['name']))
+            new.vars = StaticVars(own, keep)
+        elif proc['kind'] == 'function':
             new.vars[proc['name']] = Cell(name_type(proc['name']))
         self.scopes.append(new)
         try:
@@ -670,6 +704,40 @@ class Interp:
                 if act == 'next':
                     return
                 # RESUME: execute the statement again
+
+    def header(self, fn, s, part, on_next):
+        """Evaluate the header or tail part of a block statement (an IF /
+        ELSEIF / WHILE / DO / LOOP condition, the tests of one CASE line, the
+        increment of NEXT) with statement-level error semantics: RESUME
+        evaluates that line again, RESUME NEXT (and ON ERROR RESUME NEXT)
+        continues with the statement that follows the line in the text, which
+        the caller expresses as the value `on_next`."""
+        sid = f"{s.get('id')}.{part}" if part else s.get('id')
+        while True:
+            saved = self.part
+            if part:
+                self.part = sid
+            try:
+                return fn()
+            except QBError as e:
+                if e.stmt is None:
+                    e.stmt = sid
+                    e.stmt_kind = s['k']
+                if e.stmt != sid or self.in_handler or self.onerr is None:
+                    raise
+                self.err = ERRCODE[TRAP[e.kind]]
+                self.last_kind = e.kind
+                self.resumed = True
+                self.header_errors += 1
+                if self.onerr[0] == 'next':
+                    return on_next
+                prev = self.cur_stmt
+                act = self.run_handler(self.onerr[1])
+                self.cur_stmt = prev
+                if act == 'next':
+                    return on_next
+            finally:
+                self.part = saved
 
     def run_handler(self, label):
         self.in_handler = True
@@ -743,7 +811,9 @@ class Interp:
                 self.data_pos = 0
         elif k == 'if':
             for i, (cond, body) in enumerate(s['arms']):
-                if self.sub_truth(cond, s, f'arm{i}' if i else None):
+                # (RESUME NEXT after a failing IF / ELSEIF condition goes on
+                # with the first statement of that branch)
+                if self.header(lambda: self.truth(cond), s, f'arm{i}' if i else None, True):
                     self.block(body)
                     return
             if s.get('els') is not None:
@@ -756,7 +826,7 @@ class Interp:
         elif k == 'for':
             self.do_for(s)
         elif k == 'while':
-            while self.truth(s['cond']):
+            while self.header(lambda: self.truth(s['cond']), s, None, True):
                 self.loop_guard()
                 self.block(s['body'])
         elif k == 'do':
@@ -764,13 +834,17 @@ class Interp:
                 while True:
                     self.loop_guard()
                     if s.get('pre'):
-                        c = self.truth(s['pre'][1])
-                        if (s['pre'][0] == 'while') != c:
+                        # next statement after a failing DO line: the body
+                        w = s['pre'][0] == 'while'
+                        c = self.header(lambda: self.truth(s['pre'][1]), s, None, w)
+                        if w != c:
                             break
                     self.block(s['body'])
                     if s.get('post'):
-                        c = self.sub_truth(s['post'][1], s, 'loop')
-                        if (s['post'][0] == 'while') != c:
+                        # next statement after a failing LOOP line: behind the loop
+                        w = s['post'][0] == 'while'
+                        c = self.header(lambda: self.truth(s['post'][1]), s, 'loop', not w)
+                        if w != c:
                             break
             except _Exit as x:
                 if x.what != 'do':
@@ -960,14 +1034,16 @@ class Interp:
         step = fit(c.ty, step)
         c.v = fit(c.ty, a)
         try:
-            while (c.v <= b) if step >= 0 else (c.v >= b):
+            # runs while (var - limit) * sgn(step) <= 0; a zero step never ends
+            while (c.v <= b) if step > 0 else ((c.v >= b) if step < 0 else True):
                 self.loop_guard()
                 self.block(s['body'])
-                try:
-                    c.v = fit(c.ty, c.v + step)
-                except QBError as e:
-                    e.stmt = f"{s.get('id')}.next"
-                    raise
+                # an overflowing NEXT leaves the variable alone; the statement
+                # after it is the one behind the loop
+                nv = self.header(lambda: fit(c.ty, c.v + step), s, 'next', None)
+                if nv is None:
+                    break
+                c.v = nv
         except _Exit as x:
             if x.what != 'for':
                 raise
@@ -996,21 +1072,15 @@ class Interp:
             return {'=': x == y, '<>': x != y, '<': x < y, '>': x > y,
                     '<=': x <= y, '>=': x >= y}[ts[1]]
         for ci, (tests, body) in enumerate(s['cases']):
-            hit = False
-            for ts in tests:
-                saved = self.part
-                self.part = f"{s.get('id')}.case{ci}"
-                try:
-                    ok = test(ts)
-                except QBError as e:
-                    if e.stmt is None:
-                        e.stmt = f"{s.get('id')}.case{ci}"
-                    raise
-                finally:
-                    self.part = saved
+            def clause(tests=tests):
                 # every test of the clause is evaluated (an error in a later
                 # test of a matching clause still happens)
-                hit = hit or ok
+                hit = False
+                for ts in tests:
+                    hit = test(ts) or hit
+                return hit
+            # (next statement after a failing CASE line: the first one of its body)
+            hit = self.header(clause, s, f'case{ci}', True)
             if hit:
                 self.block(body)
                 return
